@@ -188,7 +188,7 @@ def run(ctx):
     binp = run_search(ctx, "c01")
     if not binp:
         return
-    word_leg(ctx, binp, 1500 if ctx.tier == "quick" else 20000,
+    word_leg(ctx, binp, 450 if ctx.tier == "quick" else 20000,
              "code:Printer.wordPart/dblQuoted/paramExp + Parser word parts vs Syntax/Word.v (vm_compute in kernel)")
     rerun_witnesses(ctx, binp)
     ctx.assumptions += [
